@@ -46,9 +46,9 @@ def relevant_native(pid, h):
     if pid == 'C19':
         return True
     if pid == 'C01':
-        return h.startswith(('type1_', 'full_', 'noindex_'))
+        return h.startswith(('type1_', 'full_', 'noindex_', 'combined_'))
     if pid == 'C04':
-        return h.startswith(('type1_', 'full_', 'noindex_', 'lattice_'))
+        return h.startswith(('type1_', 'full_', 'noindex_', 'lattice_', 'combined_'))
     if pid == 'C05':
         return h.startswith('full_')
     return False
@@ -69,7 +69,7 @@ PARTIAL_NOTE = {
 def run(pid, tier):
     out = Outcome(pid, tier, 'proof')
     try:
-        unit = unit_index.run_unit(tier, with_kani=(pid == 'C19'))
+        unit = unit_index.run_unit(tier, with_kani=(pid == 'C19'), with_concurrent={'C19': 'all', 'C05': 'full'}.get(pid))
     except (common.Inconclusive, LostAnchor) as ex:
         out.inconclusive.append('index unit could not be built/run: %s' % ex)
         out.coverage = {'explanation': 'unit did not run', 'obligations': 0, 'discharged': 0, 'checker_cmd': 'verus', 'trusted_base': TRUSTED}
@@ -114,6 +114,20 @@ def run(pid, tier):
 
     extra_cov = {}
     extra_assumptions = []
+    c = unit.get('concurrent')
+    if c:
+        for cf in c['failures']:
+            rp = kani.native_replay(c['binary'], cf['harness'], cf['input'])
+            still = rp['failed'] or (['no_panic'] if rp['rc'] not in (0, 3) else [])
+            note = None if still else ('the failing run depended on a thread schedule: replaying the same input did not fail again (re-run --replay a few times); '
+                                       'the recorded failure was observed on the real code in this run')
+            out.violation('concurrent-standin::%s::%s' % (cf['harness'], cf['obligation']),
+                          'bounded native execution of the real concurrent index types (sequential enumeration + sampled schedules)',
+                          'obligation %s failed for input bytes %s' % (cf['obligation'], cf['input']),
+                          failing_input={'crate': 'cidxcheck', 'harness': cf['harness'], 'bytes': cf['input'], 'failed_on_real_code': still or [cf['obligation']]},
+                          replay_transcript=rp['stdout'] + rp['stderr'], extra=note)
+        extra_cov['bounded_concurrent_types_standin_not_counted'] = {h: {'evaluated': r['evaluated'], 'domain': r['domain'], 'failures': len(r['failures'])}
+                                                                     for h, r in c['results'].items()}
     # ---- property specific additions
     if pid == 'C01':
         from . import unit_kernels
@@ -189,7 +203,9 @@ def run(pid, tier):
     if pid in PARTIAL_NOTE:
         out.assumptions.append(PARTIAL_NOTE[pid])
     if pid == 'C19':
-        out.assumptions.append('C19 is claimed for the SERIAL types only; concurrent counterparts, freeze/unfreeze and racing insert-if-absent are not covered')
+        out.assumptions.append('C19 is PROVED for the SERIAL types only. The concurrent counterparts (CRelIndex, CRelFullIndex, CLatIndex, CRelNoIndex), freeze/unfreeze and '
+                               'racing insert-if-absent have only a BOUNDED stand-in: the same contracts in executable form over the real types, every operation sequence of the '
+                               'stated small shape run sequentially plus a fixed number of sampled 4-thread schedules (schedules are sampled, not enumerated; nothing of it is counted as proved)')
     if pid == 'C01':
         out.assumptions.append('versions_base: BOUNDED stand-in (exhaustive native execution of the verbatim function, n <= 16/21); rule bodies with more dynamic clauses are outside the bound')
     return out.finish()
